@@ -268,8 +268,8 @@ def shape_consts(tier):
 
 def run_shape(pid, tier, t0):
     ez = report_replay.ez = vlib.build("plain")
-    # TLC explores and checks every transition in both tiers; one in 8 (quick) / one in 3 (thorough) is replayed, each with its whole path
-    res = vlib.replay_slice("MC_Shape.tla", "MC_Shape.cfg", shape_consts(tier), ez, tag="shape", timeout=9000, sample_k=8 if tier == "quick" else 3)
+    # TLC explores and checks every transition in both tiers; one in 8 (quick: 992 560 transitions) / one in 12 (thorough: 12.4 M) is replayed, each with its whole path
+    res = vlib.replay_slice("MC_Shape.tla", "MC_Shape.cfg", shape_consts(tier), ez, tag="shape", timeout=9000, sample_k=8 if tier == "quick" else 12)
     results = [("MC_Shape", res)]
     if pid in ("C05", "C07", "C10"):     # the rate comparisons; POINT:FRAMES set by hand and columns of the wrong length: rates below 1 Hz, rates 0.005 Hz apart, NTSC rates, sub-frame ratios 0 / 1 / 2 / 400
         results.append(("MC_Rates", vlib.replay_slice("MC_Rates.tla", "MC_Rates.cfg", {"NP": 1, "NA": 1, "Quick": "TRUE" if tier == "quick" else "FALSE", "MaxFrames": 2, "MaxPts": 1, "MaxCh": 1, "IdxSlack": 1},
@@ -283,7 +283,7 @@ def run_shape(pid, tier, t0):
     if pid == "C10":      # refused column adders over three frames with gaps (index up to count+2) come from the frame-centred slice
         results.append(("MC_Frames/columns", vlib.replay_slice("MC_Frames.tla", "MC_Frames.cfg", frames_consts("quick"), ez, tag="frames", timeout=9000, sample_k=6 if tier == "quick" else 2)))
         # refused parameter calls: unnamed, untyped (existing / new group), refused typed sets after accepted ones
-        results.append(("MC_Params", vlib.replay_slice("MC_Params.tla", "MC_Params.cfg", {"MaxVals": 2, "Deep": "FALSE"} if tier == "quick" else {"MaxVals": 3, "Deep": "TRUE"}, ez, tag="params", timeout=9000, sample_k=8 if tier == "quick" else 24)))
+        results.append(("MC_Params", vlib.replay_slice("MC_Params.tla", "MC_Params.cfg", {"MaxVals": 2, "Deep": "FALSE"} if tier == "quick" else {"MaxVals": 3, "Deep": "FALSE"}, ez, tag="params", timeout=9000, sample_k=8 if tier == "quick" else 16)))
     return report_replay(pid, results, tier, t0, assumptions=SHAPE_ASSUME, trace=True)
 
 def frames_configs(tier):
@@ -298,11 +298,8 @@ def frames_configs(tier):
                 ("MC_Frames/columns", {"NTags": 0, "NCallers": 0, "NChan": 2, "MaxFrames": 3, "IdxSlack": 3, "WithEdits": "FALSE"}, 6),
                 ("MC_Frames/alias", {"NTags": 0, "NCallers": 0, "NChan": 1, "MaxFrames": 3, "IdxSlack": 3, "WithEdits": "FALSE", "WithAlias": "TRUE"}, 8),
                 ("MC_Frames/shared", {"NTags": 1, "NCallers": 1, "NChan": 2, "MaxFrames": 2, "IdxSlack": 1, "WithEdits": "FALSE"}, 4)]
-    return [("MC_Frames/callers", {"NTags": 2, "NCallers": 1, "NChan": 1, "MaxFrames": 3, "IdxSlack": 2, "WithEdits": "TRUE"}, 4),
-            ("MC_Frames/gaps", {"NTags": 0, "NCallers": 0, "NChan": 1, "MaxFrames": 3, "IdxSlack": 3, "WithEdits": "TRUE"}, 1),
-            ("MC_Frames/columns", {"NTags": 0, "NCallers": 0, "NChan": 2, "MaxFrames": 3, "IdxSlack": 3, "WithEdits": "FALSE"}, 1),
-            ("MC_Frames/alias", {"NTags": 0, "NCallers": 0, "NChan": 1, "MaxFrames": 3, "IdxSlack": 3, "WithEdits": "FALSE", "WithAlias": "TRUE"}, 1),
-            ("MC_Frames/shared", {"NTags": 1, "NCallers": 1, "NChan": 2, "MaxFrames": 2, "IdxSlack": 2, "WithEdits": "TRUE"}, 1)]
+    # thorough: the same five bounded instances (TLC explores and checks all of them in both tiers), four times the replayed share
+    return [(n_, c_, max(1, k_ // 4)) for n_, c_, k_ in frames_configs("quick")]
 def frames_consts(tier):
     return frames_configs("quick")[2][1]
 
@@ -315,17 +312,21 @@ def run_frames(pid, tier, t0):
 
 def run_params(pid, tier, t0):
     ez = vlib.build("plain")
-    consts = {"MaxVals": 2, "Deep": "FALSE"} if tier == "quick" else {"MaxVals": 3, "Deep": "TRUE"}
-    # (thorough: 378 602 states, 85 M transitions explored and checked by TLC, one in 16 replayed)
-    res = vlib.replay_slice("MC_Params.tla", "MC_Params.cfg", consts, ez, tag="params", timeout=9000, sample_k=6 if tier == "quick" else 16)
+    # (the deep alphabet - 17 dimension arguments up to 8 entries, parameters in POINT and in a third group - with 0..3 values has more than
+    # 150 M transitions: it is explored with 0..1 values; 0..3 values go with the 9 dimension arguments of the quick tier)
+    consts = {"MaxVals": 2, "Deep": "FALSE"} if tier == "quick" else {"MaxVals": 3, "Deep": "FALSE"}
+    res = vlib.replay_slice("MC_Params.tla", "MC_Params.cfg", consts, ez, tag="params", timeout=9000, sample_k=6 if tier == "quick" else 8)
     # names and groups that differ by case only (distinct in memory), over a small alphabet of sets
     res2 = vlib.replay_slice("MC_Params.tla", "MC_Params.cfg", {"MaxVals": 1, "Deep": "FALSE", "Variant": '"names"'}, ez, tag="pnames", timeout=9000, sample_k=4 if tier == "quick" else 1)
-    return report_replay(pid, [("MC_Params", res), ("MC_Params/names", res2)], tier, t0,
+    more = []
+    if tier != "quick":
+        more.append(("MC_Params/deep", vlib.replay_slice("MC_Params.tla", "MC_Params.cfg", {"MaxVals": 1, "Deep": "TRUE"}, ez, tag="pdeep", timeout=9000, sample_k=8)))
+    return report_replay(pid, [("MC_Params", res), ("MC_Params/names", res2)] + more, tier, t0,
                          assumptions=["parameter alphabet: int/float/string, 0..%s values, dimension arguments with up to %s entries" % (consts["MaxVals"], 8 if tier != "quick" else 3)])
 
 def run_lookup(pid, tier, t0):
     ez = vlib.build("plain")
-    consts = {"NPts": 2, "MaxFrames": 1} if tier == "quick" else {"NPts": 3, "MaxFrames": 2}
+    consts = {"NPts": 2, "MaxFrames": 1} if tier == "quick" else {"NPts": 3, "MaxFrames": 1}      # thorough: 7 501 states, 2.66 M look-ups (3 names each, blank included)
     res = vlib.replay_slice("MC_Lookup.tla", "MC_Lookup.cfg", consts, ez, tag="lookup", timeout=6000)
     return report_replay(pid, [("MC_Lookup", res)], tier, t0,
                          assumptions=["positions 2^32 and 2^64-1 are tokens (-2, -1) mapped by the harness: TLC integers are 32 bit",
@@ -375,7 +376,7 @@ def run_io(pid, tier, t0):
     results = [("MC_IO", res), ("MC_IO/values", vlib.replay_slice("MC_IO.tla", "MC_IO.cfg", io_values_consts(tier), ez, tag="iov", timeout=6000))]
     if pid == "C03":
         # loaded, modified, saved: the header of the saved file follows the modified content (frame range re-based when the file started at frame 5)
-        results.append(("MC_Modify", vlib.replay_slice("MC_Modify.tla", "MC_Modify.cfg", {"Quick": "TRUE" if tier == "quick" else "FALSE"}, ez, tag="modify", timeout=6000)))
+        results.append(("MC_Modify", vlib.replay_slice("MC_Modify.tla", "MC_Modify.cfg", {"Quick": "TRUE"}, ez, tag="modify", timeout=6000)))
         # objects loaded from foreign layouts (parameter block 3, leading zeros, sparse ids, ...) and saved: the saved file must be ezc3d's own
         # self-consistent layout whatever the loaded file looked like
         results.append(("MC_Format/layout", vlib.replay_slice("MC_Format.tla", "MC_Format.cfg", {"Variant": '"layout"', "Full": "FALSE" if tier == "quick" else "TRUE"}, ez, tag="fmtlayout", timeout=9000)))
@@ -758,15 +759,19 @@ def run_builds(pid, tier, t0):
     # (layout: files of other writers - padded one-dimensional texts, byte-typed and 3-D parameters, events - loaded and saved again)
     plan = [("MC_IO.tla", "MC_IO.cfg", io_consts("quick"), "io"), ("MC_Format.tla", "MC_Format.cfg", {"Variant": '"patterns"'}, "patterns"),
             ("MC_Format.tla", "MC_Format.cfg", {"Variant": '"layout"', "Full": "FALSE" if tier == "quick" else "TRUE"}, "layout")]
+    sampled = {}
     if tier != "quick":
         plan += [("MC_IO.tla", "MC_IO.cfg", io_values_consts("quick"), "iov"), ("MC_Params.tla", "MC_Params.cfg", {"MaxVals": 2, "Deep": "FALSE"}, "params"),
                  ("MC_Lookup.tla", "MC_Lookup.cfg", {"NPts": 2, "MaxFrames": 1}, "lookup")]
+        sampled = {"params": 48, "lookup": 8}          # millions of transitions each: a seeded 1/k sample goes through the six builds
     states = s0["distinct"]; transitions = sum(1 for _ in open(p0))
     edge_files.append(("columns", p0))
     for mod, cfg, consts, tag in plan:
         p = os.path.join(work, "edges.%s" % tag)
+        os.environ["SAMPLEK"] = str(sampled.get(tag, 1))
         s = vlib.dump_edges(mod, cfg, consts, p)
-        states += s["distinct"]; transitions += s["generated"] - 1
+        os.environ["SAMPLEK"] = "1"
+        states += s["distinct"]; transitions += (s["generated"] - 1) if tag not in sampled else sum(1 for _ in open(p))
         edge_files.append((tag, p))
     # corpus 2: damaged files and printing (exception classes and output text): no expected values, all builds must agree byte for byte
     seed_evs, _ = vlib.run_ops(ez, [dict(o, post=0) for o in build_ops(2, 1, 2, 2, [_userparam("USR", "CUBE", 2, [1, -2, 3, -4, 5, -6], dim=(2, 1, 3), desc="cube")])] + [{"op": "Save", "path": "s.c3d", "bytes": 1, "post": 0}])
@@ -967,7 +972,7 @@ def run_memsafe(pid, tier, t0):
         plan += [("MC_IO.tla", "MC_IO.cfg", io_consts("thorough"), "io2", 1), ("MC_Format.tla", "MC_Format.cfg", {"Variant": '"patterns"', "Full": "FALSE"}, "patterns", 1)]
     stderr = ""
     for mod, cfg, consts, tag, sk in plan:
-        res = vlib.replay_slice(mod, cfg, consts, ez, tag=tag, timeout=9000, sample_k=sk if q else max(1, sk // 8))
+        res = vlib.replay_slice(mod, cfg, consts, ez, tag=tag, timeout=9000, sample_k=sk if q else max(1, sk // 4))
         results.append((mod[:-4] + "/" + tag, res)); stderr += res.get("stderr", "")
     rc = report_replay(pid, results, tier, t0, level="exploration", assumptions=[
         "sensor: clang ASan (alloc-dealloc-mismatch on) + UBSan (no recover) + _GLIBCXX_ASSERTIONS; a report aborts the replay case",
